@@ -103,6 +103,26 @@ func zzH_c13_agree() {
 		vAssert("inner-hash-ephemeral-order-RA-then-RB/A", bytes.HasSuffix(sumsA[0], tail))
 		vAssert("inner-hash-ephemeral-order-RA-then-RB/B", bytes.HasSuffix(sumsB[0], tail))
 	}
+	// the complete strings of the standard (7.1 / 6.1 of GM/T 0003.3): KDF input x_V || y_V || Z_A || Z_B,
+	// inner hash x_V || Z_A || Z_B || R_A || R_B, S1/S_B = Hash(0x02 || y_V || inner), S2/S_A = Hash(0x03 || y_V || inner)
+	if len(kdfA) == 4 && len(kdfB) == 4 && len(sumsA) == 3 && len(sumsB) == 3 {
+		za, _ := zzStubZA13(&dA.PublicKey, ida)
+		zb, _ := zzStubZA13(&dB.PublicKey, idb)
+		for side, kd := range [][][]byte{kdfA, kdfB} {
+			sums := sumsA
+			if side == 1 {
+				sums = sumsB
+			}
+			vAssert("kdf-input-ends-with-ZA-then-ZB", bytes.Equal(kd[2], za) && bytes.Equal(kd[3], zb))
+			if len(sums[0]) == 224 {
+				vAssert("inner-hash-starts-with-xV-ZA-ZB", bytes.Equal(sums[0][:32], kd[0]) && bytes.Equal(sums[0][32:64], za) && bytes.Equal(sums[0][64:96], zb))
+			}
+			inner := vUFBytes("sm3.224", 32, sums[0])
+			w2 := append(append([]byte{0x02}, kd[1]...), inner...)
+			w3 := append(append([]byte{0x03}, kd[1]...), inner...)
+			vAssert("confirmation-hashes-are-02-and-03-yV-inner", bytes.Equal(sums[1], w2) && bytes.Equal(sums[2], w3))
+		}
+	}
 	// kA == kB, S1/S2 agreement: both sides feed the same (structurally equal) strings into the
 	// KDF and hashes once their shared points agree; that the two shared points agree is modular
 	// arithmetic over the group order, which the solvers here do not decide (checked on the real
@@ -142,6 +162,12 @@ func zzNativeKx(ida, idb []byte) {
 		kRef, _ := kdf(16, p32(vx), p32(vy), za, zb)
 		inner := zzRealSm3(BytesCombine(p32(vx), za, zb, p32(rA.X), p32(rA.Y), p32(rB.X), p32(rB.Y)))
 		s1Ref := zzRealSm3(BytesCombine([]byte{2}, p32(vy), inner))
+		s2Ref := zzRealSm3(BytesCombine([]byte{3}, p32(vy), inner))
+		if try == 0 {
+			vAssert("kdf-input-ends-with-ZA-then-ZB", bytes.Equal(kA, kRef))
+			vAssert("inner-hash-starts-with-xV-ZA-ZB", bytes.Equal(s1A, s1Ref))
+			vAssert("confirmation-hashes-are-02-and-03-yV-inner", bytes.Equal(s1A, s1Ref) && bytes.Equal(s2A, s2Ref) && bytes.Equal(s1B, s1Ref) && bytes.Equal(s2B, s2Ref))
+		}
 		if len(vx.Bytes()) < 32 || len(vy.Bytes()) < 32 || try == 0 {
 			short := len(vx.Bytes()) < 32 || len(vy.Bytes()) < 32
 			if short {
